@@ -31,7 +31,7 @@ S == INSTANCE Store WITH
        AdsUses <- [v \in DOMAIN U.adsuses |-> ToSet(U.adsuses[v])],
        MatUses <- [v \in DOMAIN U.matuses |-> ToSet(U.matuses[v])],
        IsoMat <- U.isomat, IsoAds <- U.isoads, IsoTy <- U.isoty,
-       IsoMatVer <- U.isomatver, IsoAdsVer <- U.isoadsver, IsoClass <- U.isoclass,
+       IsoMatVer <- U.isomatver, IsoAdsVer <- U.isoadsver, IsoTemp <- U.isotemp, IsoClass <- U.isoclass,
        Traits <- ToSet(U.traits)
 
 \* content tokens a file may legitimately hold: anything else is a half-present item
